@@ -108,8 +108,9 @@ void _gemm_div(const T * FASTOR_RESTRICT a, const T * FASTOR_RESTRICT b, T * FAS
 
 
 // matmul - matvec overloads
-template<typename T, size_t I, size_t J, size_t K>
-FASTOR_INLINE void matmul_dispatcher(const Tensor<T,I,J> &a, const Tensor<T,J,K> &b, Tensor<T,I,K> &out) {
+// The destination may be any tensor class that owns or maps storage (Tensor, TensorMap)
+template<typename T, size_t I, size_t J, size_t K, template<typename,size_t...> class TensorOut>
+FASTOR_INLINE void matmul_dispatcher(const Tensor<T,I,J> &a, const Tensor<T,J,K> &b, TensorOut<T,I,K> &out) {
     FASTOR_IF_CONSTEXPR(J==1) {
         _dyadic<T,I,K>(a.data(),b.data(),out.data());
     }
@@ -120,51 +121,51 @@ FASTOR_INLINE void matmul_dispatcher(const Tensor<T,I,J> &a, const Tensor<T,J,K>
         _matmul<T,I,J,K>(a.data(),b.data(),out.data());
     }
 }
-template<typename T, size_t I, size_t J>
-FASTOR_INLINE void matmul_dispatcher(const Tensor<T,I,J> &a, const Tensor<T,J> &b, Tensor<T,I> &out) {
+template<typename T, size_t I, size_t J, template<typename,size_t...> class TensorOut>
+FASTOR_INLINE void matmul_dispatcher(const Tensor<T,I,J> &a, const Tensor<T,J> &b, TensorOut<T,I> &out) {
     _matmul<T,I,J,1>(a.data(),b.data(),out.data());
 }
-template<typename T, size_t J, size_t K>
-FASTOR_INLINE void matmul_dispatcher(const Tensor<T,J> &a, const Tensor<T,J,K> &b, Tensor<T,K> &out) {
+template<typename T, size_t J, size_t K, template<typename,size_t...> class TensorOut>
+FASTOR_INLINE void matmul_dispatcher(const Tensor<T,J> &a, const Tensor<T,J,K> &b, TensorOut<T,K> &out) {
     _matmul<T,1,J,K>(a.data(),b.data(),out.data());
 }
 
-template<typename T, size_t I, size_t J, size_t K>
-FASTOR_INLINE void matmul_dispatcher(const T alpha, const Tensor<T,I,J> &a, const Tensor<T,J,K> &b, const T beta, Tensor<T,I,K> &out) {
+template<typename T, size_t I, size_t J, size_t K, template<typename,size_t...> class TensorOut>
+FASTOR_INLINE void matmul_dispatcher(const T alpha, const Tensor<T,I,J> &a, const Tensor<T,J,K> &b, const T beta, TensorOut<T,I,K> &out) {
     _gemm<T,I,J,K>(alpha,a.data(),b.data(),beta,out.data());
 }
-template<typename T, size_t I, size_t J>
-FASTOR_INLINE void matmul_dispatcher(const T alpha, const Tensor<T,I,J> &a, const Tensor<T,J> &b, const T beta, Tensor<T,I> &out) {
+template<typename T, size_t I, size_t J, template<typename,size_t...> class TensorOut>
+FASTOR_INLINE void matmul_dispatcher(const T alpha, const Tensor<T,I,J> &a, const Tensor<T,J> &b, const T beta, TensorOut<T,I> &out) {
     _gemm<T,I,J,1>(alpha,a.data(),b.data(),beta,out.data());
 }
-template<typename T, size_t J, size_t K>
-FASTOR_INLINE void matmul_dispatcher(const T alpha, const Tensor<T,J> &a, const Tensor<T,J,K> &b, const T beta, Tensor<T,K> &out) {
+template<typename T, size_t J, size_t K, template<typename,size_t...> class TensorOut>
+FASTOR_INLINE void matmul_dispatcher(const T alpha, const Tensor<T,J> &a, const Tensor<T,J,K> &b, const T beta, TensorOut<T,K> &out) {
     _gemm<T,1,J,K>(alpha,a.data(),b.data(),beta,out.data());
 }
 
-template<typename T, size_t I, size_t J, size_t K>
-FASTOR_INLINE void matmul_dispatcher_mul(const Tensor<T,I,J> &a, const Tensor<T,J,K> &b, Tensor<T,I,K> &out) {
+template<typename T, size_t I, size_t J, size_t K, template<typename,size_t...> class TensorOut>
+FASTOR_INLINE void matmul_dispatcher_mul(const Tensor<T,I,J> &a, const Tensor<T,J,K> &b, TensorOut<T,I,K> &out) {
     _gemm_mul<T,I,J,K>(a.data(),b.data(),out.data());
 }
-template<typename T, size_t I, size_t J>
-FASTOR_INLINE void matmul_dispatcher_mul(const Tensor<T,I,J> &a, const Tensor<T,J> &b, Tensor<T,I> &out) {
+template<typename T, size_t I, size_t J, template<typename,size_t...> class TensorOut>
+FASTOR_INLINE void matmul_dispatcher_mul(const Tensor<T,I,J> &a, const Tensor<T,J> &b, TensorOut<T,I> &out) {
     _gemm_mul<T,I,J,1>(a.data(),b.data(),out.data());
 }
-template<typename T, size_t J, size_t K>
-FASTOR_INLINE void matmul_dispatcher_mul(const Tensor<T,J> &a, const Tensor<T,J,K> &b, Tensor<T,K> &out) {
+template<typename T, size_t J, size_t K, template<typename,size_t...> class TensorOut>
+FASTOR_INLINE void matmul_dispatcher_mul(const Tensor<T,J> &a, const Tensor<T,J,K> &b, TensorOut<T,K> &out) {
     _gemm_mul<T,1,J,K>(a.data(),b.data(),out.data());
 }
 
-template<typename T, size_t I, size_t J, size_t K>
-FASTOR_INLINE void matmul_dispatcher_div(const Tensor<T,I,J> &a, const Tensor<T,J,K> &b, Tensor<T,I,K> &out) {
+template<typename T, size_t I, size_t J, size_t K, template<typename,size_t...> class TensorOut>
+FASTOR_INLINE void matmul_dispatcher_div(const Tensor<T,I,J> &a, const Tensor<T,J,K> &b, TensorOut<T,I,K> &out) {
     _gemm_div<T,I,J,K>(a.data(),b.data(),out.data());
 }
-template<typename T, size_t I, size_t J>
-FASTOR_INLINE void matmul_dispatcher_div(const Tensor<T,I,J> &a, const Tensor<T,J> &b, Tensor<T,I> &out) {
+template<typename T, size_t I, size_t J, template<typename,size_t...> class TensorOut>
+FASTOR_INLINE void matmul_dispatcher_div(const Tensor<T,I,J> &a, const Tensor<T,J> &b, TensorOut<T,I> &out) {
     _gemm_div<T,I,J,1>(a.data(),b.data(),out.data());
 }
-template<typename T, size_t J, size_t K>
-FASTOR_INLINE void matmul_dispatcher_div(const Tensor<T,J> &a, const Tensor<T,J,K> &b, Tensor<T,K> &out) {
+template<typename T, size_t J, size_t K, template<typename,size_t...> class TensorOut>
+FASTOR_INLINE void matmul_dispatcher_div(const Tensor<T,J> &a, const Tensor<T,J,K> &b, TensorOut<T,K> &out) {
     _gemm_div<T,1,J,K>(a.data(),b.data(),out.data());
 }
 
